@@ -7,7 +7,7 @@ import itertools
 import json
 import re
 import sys
-from typing import Any, Dict, List, Optional, Tuple
+from typing import Annotated, Any, Dict, List, Optional, Tuple
 
 from .. import infra
 from .. import world
@@ -29,7 +29,8 @@ RULE = (
     "deserialize (every other candidate spelling is rejected with missing/unexpected at the right keys), key emitted by "
     "serialize, properties / required / dependentRequired of both schemas, loc of structural / field-validator / yielded "
     "errors (plain, nested, flattened), GraphQL output field, input field and argument names and the loc of a GraphQL "
-    "argument error (names that are GraphQL identifiers). distinct_nontrivial counts distinct (configuration, view)."
+    "argument error (names that are GraphQL identifiers); the plain / nested / flattened data again under one more layer of "
+    "constraints (call-level schema=, Annotated item of a list) within the same cache lifetime. distinct_nontrivial counts distinct (configuration, view)."
 )
 
 NAMES = ["a_b", "aB", "a_b1"]
@@ -301,6 +302,21 @@ def check_config(mod, k, cfg, st: infra.Stats):
                     viol("flattened_serialize", f"{serialize(Fl, f, **kw)}")
             except ValidationError as e:
                 viol("nested_or_flattened_deserialize", f"{locs(e)}")
+            # the same types met again under one more (harmless) layer of constraints, in the same cache lifetime:
+            # a second method is derived from what the first visit of the class computed
+            from apischema import schema as _schema
+
+            for tname, T_, datum in (("plain", C, {ext: 1}), ("nested", H, {inner_ext: {ext: 2}}), ("flattened", Fl, {z_ext: 0, ext: 3})):
+                try:
+                    first = deserialize(T_, datum, **kw)
+                    again = deserialize(T_, datum, schema=_schema(min_props=1), **kw)
+                    if again != first:
+                        viol("second_method:" + tname, f"{datum} gives {again!r} under schema(min_props=1), {first!r} without")
+                    listed = deserialize(List[Annotated[T_, _schema(max_props=9)]], [datum], **kw)
+                    if listed != [first]:
+                        viol("second_method:" + tname, f"[{datum}] gives {listed!r} as List[Annotated[T, schema(max_props=9)]]")
+                except ValidationError as e:
+                    viol("second_method:" + tname, f"{datum} rejected once the type is met under another layer of constraints: {locs(e)}")
             # GraphQL
             if generic:
                 # the unspecialised class is one more view of the same fields
